@@ -43,6 +43,10 @@ type Channel struct {
 	// them forever otherwise.
 	closing     chan struct{}
 	closingLock *sync.Mutex
+	// txLock serialises the transmit side of the channel (header type,
+	// packet number and transmit queue): a message being queued or
+	// sent, Reset and the teardown sent by Close.
+	txLock *sync.Mutex
 	isClosing   bool
 
 	channelId int
@@ -101,6 +105,7 @@ func (tds *Conn) NewChannel() (*Channel, error) {
 		packageCh:          make(chan Package, tds.info.ChannelPackageQueueSize),
 		closing:            make(chan struct{}),
 		closingLock:        &sync.Mutex{},
+		txLock:             &sync.Mutex{},
 		errCh:              make(chan error, 10),
 	}
 
@@ -119,8 +124,12 @@ func (tds *Conn) NewChannel() (*Channel, error) {
 	setup.Header.Length = PacketHeaderSize
 	setup.Data = nil
 
+	// The channel is registered already and may be closed by Conn.Close.
+	tdsChan.txLock.Lock()
 	tdsChan.CurrentHeaderType = TDS_BUF_SETUP
-	if err := tdsChan.sendPacket(setup, true); err != nil {
+	err = tdsChan.sendPacket(setup, true)
+	tdsChan.txLock.Unlock()
+	if err != nil {
 		return nil, fmt.Errorf("error sending setup for channel %d: %w",
 			tdsChan.channelId, err)
 	}
@@ -148,10 +157,13 @@ func (tds *Conn) NewChannel() (*Channel, error) {
 func (tdsChan *Channel) Reset() {
 	tdsChan.RLock()
 	defer tdsChan.RUnlock()
+	tdsChan.txLock.Lock()
+	defer tdsChan.txLock.Unlock()
 	tdsChan.reset()
 }
 
-// reset is Reset for callers already holding the read lock. Acquiring
+// reset is Reset for callers already holding the read lock and the
+// transmit lock. Acquiring
 // the read lock recursively deadlocks as soon as a writer (Close) is
 // waiting for the lock between the two acquisitions.
 func (tdsChan *Channel) reset() {
@@ -196,9 +208,12 @@ func (tdsChan *Channel) Close() error {
 		// Send packet to tear down logical channel
 		teardown := NewPacket(tdsChan.tdsConn.PacketSize())
 		teardown.Data = nil
+		tdsChan.txLock.Lock()
 		tdsChan.CurrentHeaderType = TDS_BUF_CLOSE
+		err := tdsChan.sendPacket(teardown, true)
+		tdsChan.txLock.Unlock()
 
-		if err := tdsChan.sendPacket(teardown, true); err != nil {
+		if err != nil {
 			me = multierror.Append(me,
 				fmt.Errorf("error sending teardown for channel %d: %w",
 					tdsChan.channelId, err))
@@ -520,6 +535,8 @@ func (tdsChan *Channel) QueuePackage(ctx context.Context, pkg Package) error {
 	if tdsChan.closed {
 		return ErrChannelClosed
 	}
+	tdsChan.txLock.Lock()
+	defer tdsChan.txLock.Unlock()
 
 	// Do not queue anything if the package cannot be sent anyway - it
 	// would be left behind and sent as part of the next message.
@@ -554,6 +571,9 @@ func (tdsChan *Channel) SendRemainingPackets(ctx context.Context) error {
 	if tdsChan.closed {
 		return ErrChannelClosed
 	}
+
+	tdsChan.txLock.Lock()
+	defer tdsChan.txLock.Unlock()
 
 	// SendRemainingPackets is only called when completing sending
 	// packets to the server and preparing to receive the answer.
